@@ -140,6 +140,16 @@ func Both(cur realm, k string, n int) int {
 	return ctr.Inc(cross(cur), n)
 }
 
+var Seen []string
+
+// Grow enlarges the storage of three realms in one transaction.
+func Grow(cur realm, k string) int {
+	Calls++
+	Seen = append(Seen, k)
+	kv.Push(cross(cur), k, "g")
+	return ctr.Note(cross(cur), k)
+}
+
 func BothThenBoom(cur realm, k string, n int) {
 	Calls++
 	kv.Set(cross(cur), k, "x")
